@@ -12,11 +12,15 @@
    non-skip cells of the buffer in row-major order (RBFlushReach.v); tcellat t y x = the cell
    of terminal t at line y, column x; term_ok = the terminal's grid has t_lines rows of t_cols
    cells; over c d = what a terminal cell shows when buffer cell c is flushed over it (d itself
-   for a Skip cell); narrow u = every code point of u has width one.
+   for a Skip cell); narrow u = every code point of u has width one; lay u = the layout of a
+   string by the terminal's grapheme rule (RBTermSim.v: a base character with the zero-width
+   characters following it in the cell of its first column, an empty continuation cell for the
+   second column of a double-width character); shows c old new = what the terminal cell must be
+   under buffer cell c (RBFlushShown.v).
    This file contains nothing but the property theorems, each closed by [exact <lemma>]. *)
 From Coq Require Import ZArith List Bool.
 From Tickit Require Import RectDefs RBDefs RBSpec RBAbsLemmas RBInv RBProofs Gen_Linechars RBGlyphs RBGlyphProofs
-                           RBFlushDefs RBFlushSpec RBFlushProofs RBProps RBWidth RBFlushCols RBFlushReach RBTermSim RBFlushGrid.
+                           RBFlushDefs RBFlushSpec RBFlushProofs RBProps RBWidth RBFlushCols RBFlushReach RBTermSim RBFlushShown RBFlushGrid.
 Import ListNotations.
 Local Open Scope Z_scope.
 
@@ -91,8 +95,9 @@ Proof. exact astep_aok. Qed.
 Print Assumptions C04_content_invariant.
 
 (* The terminal model executes any list of operations exactly as the grid-free description
-   [paint] says (goto within the terminal, prints of width-one strings that fit, erases that
-   fit): no fault, and every cell is the last thing written to it, or what it was. *)
+   [paint] says (goto within the terminal; prints of valid strings beginning with a base
+   character that fit, laid out by [lay]; erases that fit): no fault, and every cell is the last
+   thing written to it, or what it was. *)
 Theorem C04_terminal_executes : forall ops t cur w cur' pen',
   term_ok t -> cur_match t cur ->
   paint (t_lines t) (t_cols t) cur (t_cur t) ops = Some (w, cur', pen') ->
@@ -101,7 +106,72 @@ Theorem C04_terminal_executes : forall ops t cur w cur' pen',
 Proof. exact t_run_paint. Qed.
 Print Assumptions C04_terminal_executes.
 
-(* THE PROPERTY, for buffers whose texts consist of width-one characters (ASCII, Latin-1, box
+(* The mock terminal's grapheme loop (mtd_print) lays a valid string that begins with a base
+   character out as [lay] says, advancing by exactly the string's width. *)
+Theorem C04_print_layout : forall u t,
+  valid u -> starts_base u -> term_ok t -> 0 <= t_line t < t_lines t -> 0 <= t_col t -> t_col t + tw u <= t_cols t ->
+  exists t', t_apply t (TPrint u) = Ok t' /\
+    term_ok t' /\ same_frame t t' /\ t_cur t' = t_cur t /\ t_line t' = t_line t /\ t_col t' = t_col t + tw u /\
+    forall y x, 0 <= y < t_lines t -> 0 <= x < t_cols t ->
+      tcellat t' y x = if (y =? t_line t) && (t_col t <=? x) && (x <? t_col t + tw u)
+                       then mkT (nth (Z.to_nat (x - t_col t)) (lay u) []) (t_cur t) else tcellat t y x.
+Proof. exact print_lay. Qed.
+Print Assumptions C04_print_layout.
+
+(* THE PROPERTY, for EVERY buffer (any mix of character widths): flushing onto ANY terminal at
+   least as large as the buffer -- whatever its content, cursor and pen, and whether or not its
+   erasech(MAYBE) moves the cursor -- the terminal executes the emitted operations without
+   fault, and afterwards
+     - every terminal cell outside the buffer or under a Skip cell is what it was;
+     - under an Erase / Line / Char cell it shows a blank / the table's glyph / the code point,
+       in that cell's pen;
+     - under a Text cell it carries the text's pen, and, if the text consists of width-one
+       characters, shows the text's own character for that column.
+   (What a Text cell of a string with double-width or zero-width characters shows is determined
+   exactly by C04_flush_shown below, in terms of the span; its agreement with the oracle's
+   expect_cell is the part left to testing.) *)
+Theorem C04_flush_grid_all : forall s t0 ops s',
+  Inv s -> acells_ok (abs_rb s) ->
+  term_ok t0 -> rb_lines s <= t_lines t0 -> rb_cols s <= t_cols t0 ->
+  flush s = Ok (ops, s') ->
+  exists t1, t_run t0 ops = Ok t1 /\ term_ok t1 /\ same_frame t0 t1 /\
+    forall y x, 0 <= y < t_lines t0 -> 0 <= x < t_cols t0 ->
+      if (y <? rb_lines s) && (x <? rb_cols s)
+      then shows (ac (gcell (ag (abs_rb s)) y x)) (tcellat t0 y x) (tcellat t1 y x)
+      else tcellat t1 y x = tcellat t0 y x.
+Proof. exact flush_grid_shows. Qed.
+Print Assumptions C04_flush_grid_all.
+
+(* ... exactly, span by span: the cells under a text span show the layout (by the terminal's
+   grapheme rule) of the visible slice of the string, with a blank for each orphaned half of a
+   double-width character ([shown], [span_out]). *)
+Theorem C04_flush_shown : forall s t0 ops s',
+  Inv s -> acells_ok (abs_rb s) ->
+  term_ok t0 -> rb_lines s <= t_lines t0 -> rb_cols s <= t_cols t0 ->
+  flush s = Ok (ops, s') ->
+  exists t1, t_run t0 ops = Ok t1 /\ term_ok t1 /\ same_frame t0 t1 /\
+    forall y x, 0 <= y < t_lines t0 -> 0 <= x < t_cols t0 ->
+      tcellat t1 y x =
+      if (y <? rb_lines s) && (x <? rb_cols s)
+      then shown (zn (cells s) y []) x (tcellat t0 y x)
+      else tcellat t0 y x.
+Proof. exact flush_grid_shown. Qed.
+Print Assumptions C04_flush_shown.
+
+(* ... for every buffer a drawing program reaches (line styles 1..3), against the specification's
+   grid of C03. *)
+Theorem C04_flush_grid_all_reachable : forall L C prog s v t0,
+  0 <= L -> 0 <= C -> Forall op_ok prog -> run (rb_new L C) prog = Ok (s, v) ->
+  term_ok t0 -> L <= t_lines t0 -> C <= t_cols t0 ->
+  exists ops t1, flush s = Ok (ops, reset s) /\ t_run t0 ops = Ok t1 /\ term_ok t1 /\ same_frame t0 t1 /\
+    forall y x, 0 <= y < t_lines t0 -> 0 <= x < t_cols t0 ->
+      if (y <? L) && (x <? C)
+      then shows (ac (gcell (ag (fst (arun (a_new L C) prog))) y x)) (tcellat t0 y x) (tcellat t1 y x)
+      else tcellat t1 y x = tcellat t0 y x.
+Proof. exact flush_grid_reachable. Qed.
+Print Assumptions C04_flush_grid_all_reachable.
+
+(* As one equation, for buffers whose texts consist of width-one characters (ASCII, Latin-1, box
    drawing ...): flushing onto ANY terminal at least as large as the buffer -- whatever its
    content, cursor and pen, and whether or not its erasech(MAYBE) moves the cursor -- the
    terminal executes the emitted operations without fault, and afterwards every terminal cell
@@ -132,7 +202,7 @@ Theorem C04_flush_grid_reachable : forall L C prog s v t0,
       if (y <? L) && (x <? C)
       then over (ac (gcell (ag (fst (arun (a_new L C) prog))) y x)) (tcellat t0 y x)
       else tcellat t0 y x.
-Proof. exact flush_grid_reachable. Qed.
+Proof. exact flush_grid_narrow_reachable. Qed.
 Print Assumptions C04_flush_grid_reachable.
 
 (* Clause 5 of the oracle's flush_checkb (overlay_checkb, evaluated on the grid the C
@@ -145,9 +215,10 @@ Theorem C04_flush_overlay : forall s t0 ops s',
 Proof. exact flush_overlay. Qed.
 Print Assumptions C04_flush_overlay.
 
-(* NOT PROVED: WHAT is shown in the cells of a text containing double-width or zero-width
-   characters (C04_flush_columns proves WHERE the flush writes for those too, and
-   C04_text_columns that the span's width is kept).  Full statement:
+(* NOT PROVED: that what C04_flush_shown determines for the cells of a text with double-width
+   or zero-width characters is what the oracle's expect_cell accepts (each whole grapheme in the
+   cell of its first column, an empty continuation cell in the second; a half-visible grapheme
+   free in content).  Full statement:
 
    C04_flush_full : forall s t0 ops s',
      Inv s -> acells_ok (abs_rb s) ->
@@ -156,11 +227,14 @@ Print Assumptions C04_flush_overlay.
      exists t1, t_run t0 ops = Ok t1 /\
        grid_meets (ag (abs_rb s)) (tg t0) (tg t1) = true.
 
-   What is missing: the mock terminal's grapheme loop (t_print_loop) on strings with width-0 and
-   width-2 characters -- each grapheme in the cell of its first column, an empty continuation
-   cell in the second -- and its agreement with expect_cell's grapheme arithmetic.  Carried by
-   the correspondence check as testing (exact grid of the C against the model, and grid_meets on
-   the C's own grid, over width-mix texts cut at every column). *)
+   Proved of it: everything but the Text case of expect_cell for strings that are not narrow --
+   t_run succeeds, Skip / outside untouched, Erase / Line / Char exact, pens everywhere, narrow
+   texts exact (C04_flush_grid_all); the cells of other texts are determined (C04_flush_shown,
+   C04_print_layout).  Missing: the agreement of [lay (slice s st en)] with expect_cell's
+   grapheme arithmetic (slice_start / count_on with a grapheme limit, the `whole' test over
+   neighbouring cells).  Carried by the correspondence check as testing (exact grid of the C
+   against the model, and grid_meets on the C's own grid, over width-mix texts cut at every
+   column). *)
 
 Example C04_nonvacuous :
   exists s v ops, run (rb_new 1 6) [OTextAt 0 0 [0xff21; 98; 99]; OCharAt 0 0 120; OHLine 0 4 5 2 3] = Ok (s, v) /\
